@@ -84,7 +84,6 @@ theorem triangle_transparent_no_pixels (t : Tri) (style : TriStyle)
 
 example : triPixels ⟨⟨0, 0⟩, ⟨4, 1⟩, ⟨2, 5⟩⟩ ⟨none, some 1, 0, .center⟩ = some [] := by decide
 
--- [V] every pixel of a stroked polyline (width >= 2) lies inside bounding_box(): the fold of the segment boxes also has to cover the cap and bevel filler lines, which reach to corners of the NEIGHBOURING segment ("other segments expand the box" in the source comment): carried by correspondence + oracle only
--- [V] every pixel of a stroked triangle (any alignment; Inside: the plain vertex box) lies inside bounding_box(): carried by correspondence + oracle only
+-- (stroked polylines / triangles of width > 1 against bounding_box(): EG/Props/C02/JoinsBBox.lean)
 
 end EG.C02.Joins
